@@ -1,6 +1,6 @@
 """C16 — bit-wise operators and shifts.
 
-line: C16 <op> <a> <b|n> <cls> <rkind>
+line: C16 <op> <a> <b|n> <cls> <rkind> <lsb0>
   op ∈ and or xor (two objects) | andself orself xorself (same object) | not | shl shr | ishl ishr
       | iand ior ixor (in-place, mutable classes; model = and/or/xor)
   rkind: how the right operand is presented (obj:<Class> | str | list | bitarray)
@@ -10,7 +10,7 @@ from harness.common import *
 import itertools
 
 FUNCTIONAL = True      # the property fixes the output uniquely: a disagreement with the model is a failing input
-INPLACE = {"iand": "and", "ior": "or", "ixor": "xor"}
+INPLACE = {"iand": "and", "ior": "or", "ixor": "xor", "iandself": "andself", "iorself": "orself", "ixorself": "xorself"}
 
 
 def model_line(line: str) -> str:
@@ -33,7 +33,13 @@ def _right(bits: str, rkind: str):
 
 
 def execute(line: str):
-    _, op, a, b, cls, rkind = line.split(SEP)
+    lsb0 = line.split(SEP)[6] == "1"
+    with options(lsb0=lsb0):
+        return _execute(line)
+
+
+def _execute(line: str):
+    _, op, a, b, cls, rkind, _l = line.split(SEP)
     a = unwire(a)
     x = mk(cls, a)
     extra = {}
@@ -61,6 +67,17 @@ def execute(line: str):
         extra["left_after"] = wire(x)
         if res and res[0] is x and cls in MUTABLE:
             extra["aliased_result"] = True
+    elif op in ("iandself", "iorself", "ixorself"):
+        def th():
+            nonlocal x
+            if op == "iandself":
+                x &= x
+            elif op == "iorself":
+                x |= x
+            else:
+                x ^= x
+            return x
+        out = guarded(th, wire)
     elif op == "not":
         out = guarded(lambda: ~x, wire)
         extra["left_after"] = wire(x)
@@ -87,7 +104,7 @@ def execute(line: str):
 
 def oracle(line: str, out: str, extra: dict):
     """The property's own predicate, from Python int arithmetic on the operands' bits."""
-    _, op, a, b, cls, rkind = line.split(SEP)
+    _, op, a, b, cls, rkind, _l = line.split(SEP)
     a = unwire(a)
     n = len(a)
     op = INPLACE.get(op, op)
@@ -133,6 +150,11 @@ def _rk(rng, cls_pool=CLASS_NAMES):
 
 
 def gen(rng, tier: str):
+    for l in _gen(rng, tier):
+        yield l + SEP + ("1" if rng.random() < 0.3 else "0")
+
+
+def _gen(rng, tier: str):
     big = tier != "quick"
     L = 5 if big else 4
     allbits = lambda n: ["".join(p) for p in itertools.product("01", repeat=n)]
@@ -144,6 +166,9 @@ def gen(rng, tier: str):
                     yield SEP.join(["C16", op, wire(a), wire(b), rng.choice(CLASS_NAMES), _rk(rng)])
             for op in ("andself", "orself", "xorself", "not"):
                 for cls in CLASS_NAMES:
+                    yield SEP.join(["C16", op, wire(a), "-", cls, "obj:" + cls])
+            for op in ("iandself", "iorself", "ixorself"):
+                for cls in MUTABLE:
                     yield SEP.join(["C16", op, wire(a), "-", cls, "obj:" + cls])
     # in-place forms and unequal lengths
     for n in range(0, 6):
@@ -176,8 +201,8 @@ def gen(rng, tier: str):
             cls = rng.choice(MUTABLE if op[0] == "i" else CLASS_NAMES)
             yield SEP.join(["C16", op, wire(a), wire(b), cls, _rk(rng)])
         elif r < 0.55:
-            op = rng.choice(["andself", "orself", "xorself", "not"])
-            cls = rng.choice(CLASS_NAMES)
+            op = rng.choice(["andself", "orself", "xorself", "not", "iandself", "iorself", "ixorself"])
+            cls = rng.choice(MUTABLE if op[0] == "i" else CLASS_NAMES)
             yield SEP.join(["C16", op, wire(a), "-", cls, "obj:" + cls])
         else:
             k = rng.choice([-1, 0, 1, 7, 8, 9, n - 1, n, n + 1, n + 64, rng.randint(0, n + 2)])
